@@ -175,7 +175,7 @@ def run_check(spec, tier, seed):
     pred_evals = 0
     batch_res = spec.batch_predicate(cases, impl, ctx) if spec.batch_predicate and hdir else None
     for ci, (c, m, im) in enumerate(zip(cases, model, impl)):
-        if any(l == "bad-op" for l in m):
+        if any(l == "bad-op" for l in m) and not c.meta.get("lenient"):
             bad_ops += 1
         if im is None:
             continue
